@@ -144,12 +144,18 @@ func cborEntries(b []byte) ([][]byte, error) {
 		return nil, err
 	}
 	it := n.MapIterator()
+	if it == nil || it.Done() {
+		return nil, fmt.Errorf("not a container map")
+	}
 	_, l, err := it.Next()
 	if err != nil {
 		return nil, err
 	}
 	var out [][]byte
 	li := l.ListIterator()
+	if li == nil {
+		return nil, fmt.Errorf("not a container list")
+	}
 	for !li.Done() {
 		_, v, _ := li.Next()
 		x, err := v.AsBytes()
